@@ -7,7 +7,8 @@ import FluteModel.Sched
     new <f|b> <d|i> <carNs> <fdtDurNs> <startId> <il> <efdt> <fits 0|1> <nq> (<prio> <mux>)*         -> ok
         (il = interleave_blocks, efdt = symbol length of the FDT: used by the harness only)
     add <prio> <nSym> <maxCount> <n|d|i> <carNs> <-|startNs> <n|f|d|t> <targetNs> <0|1> <E> <B> <rem> -> ok <toi> | ERR
-        (E, B, rem = symbol length, max source block length, bytes in the last symbol: harness only)
+        (E, B, rem = symbol length, max source block length, bytes in the last symbol: harness only;
+         an optional 14th token x<ns> = CacheControl::Expires, harness only: the model has no cache control)
     publish <t>                                                                                       -> ok
     remove <toi>                                                                                      -> true | false
     trigger <toi> <-|ns>                                                                              -> true | false
@@ -96,6 +97,19 @@ def withState (d : D) (f : State → D × String) : D × String :=
 def fin (d : D) (s : State) (out : String) : D × String :=
   ({ d with st := some s }, if s.panic.isSome then "PANIC" else out)
 
+def addStep (d : D) (prio nSym maxc ck cd st tk td al e b rem : String) : D × String :=
+    withState d fun s =>
+      match nats? [prio, nSym, maxc, cd, td, al, e, b, rem], optNat? st with
+      | some [prio, nSym, maxc, cd, td, al, _, _, _], some st =>
+        match carousel? ck cd, target? tk td with
+        | some car, some tg =>
+          if al > 1 then (d, "bad-op") else
+          let (s, r) := addObject s { prio := prio, nSym := nSym, maxCount := maxc, carousel := car,
+                                       start := st, target := tg, allowStop := al == 1 }
+          fin d s (match r with | some t => s!"ok {t}" | none => "ERR")
+        | _, _ => (d, "bad-op")
+      | _, _ => (d, "bad-op")
+
 def step (d : D) (args : List String) : D × String :=
   match args with
   | "fdtpkts" :: ns =>
@@ -117,18 +131,8 @@ def step (d : D) (args : List String) : D × String :=
         | none => (d, "bad-op")
       | _, _ => (d, "bad-op")
     | _ => (d, "bad-op")
-  | ["add", prio, nSym, maxc, ck, cd, st, tk, td, al, e, b, rem] =>
-    withState d fun s =>
-      match nats? [prio, nSym, maxc, cd, td, al, e, b, rem], optNat? st with
-      | some [prio, nSym, maxc, cd, td, al, _, _, _], some st =>
-        match carousel? ck cd, target? tk td with
-        | some car, some tg =>
-          if al > 1 then (d, "bad-op") else
-          let (s, r) := addObject s { prio := prio, nSym := nSym, maxCount := maxc, carousel := car,
-                                       start := st, target := tg, allowStop := al == 1 }
-          fin d s (match r with | some t => s!"ok {t}" | none => "ERR")
-        | _, _ => (d, "bad-op")
-      | _, _ => (d, "bad-op")
+  | ["add", prio, nSym, maxc, ck, cd, st, tk, td, al, e, b, rem] => addStep d prio nSym maxc ck cd st tk td al e b rem
+  | ["add", prio, nSym, maxc, ck, cd, st, tk, td, al, e, b, rem, _cc] => addStep d prio nSym maxc ck cd st tk td al e b rem
   | ["publish", t] =>
     withState d fun s =>
       match nat? t with
